@@ -33,9 +33,17 @@ def _drained_after(tr, k, need_complete=False):
 def oracle_c10(tr: Trace):
     adm = ADMISSION_EXC if tr.kind == "dest" else SRC_ADMISSION_EXC
     file_tampered = False
+    rejecting = False
+    write_refused = False       # the filestore refused a File Data write of the running transaction
     for st in tr.steps:
         if st.tag == 7 and st.op[1] == 2:
             file_tampered = True        # the environment deleted a file: outside the property's histories
+        if st.tag == 6:
+            rejecting = bool(st.op[1])
+        if st.ob["fields"]["state"] == 0 and st.tag != 0:
+            write_refused = False
+        if tr.kind == "dest" and rejecting and st.tag == 0 and st.pdu is not None and st.pdu["kind"] == codec.K_FD:
+            write_refused = True
         e = st.ob["exc"]
         if st.tag == 2 and not e and st.prev is not None:
             # the public counter of PDUs ready to be sent agrees with what get_next_packet() hands out
@@ -51,6 +59,10 @@ def oracle_c10(tr: Trace):
         if not e:
             continue
         if st.tag in (5, 6, 7, 10):
+            continue
+        if e == 102 and write_refused:
+            # C10 quantifies over PDUs, API calls and time steps, not over a filestore that refuses writes: a refused write is
+            # swallowed after the lost-segment bookkeeping was done and leaves it inconsistent with the progress (DESIGN 14/15)
             continue
         if e in INTERNAL_NAMES:
             what = "C10 [fixed finding F9 is back] tracker ValueError on File Data straddling a lost range" if (
